@@ -122,6 +122,16 @@ impl rustc_driver::Callbacks for Extract {
                 if tcx.is_coroutine(ldid.to_def_id()) {
                     continue;
                 }
+                // serde derive output (visitors etc.) is never the subject of a rule: skip it
+                let dsp = tcx.def_span(ldid.to_def_id());
+                if dsp.from_expansion()
+                    && dsp.macro_backtrace().any(|ed| {
+                        matches!(ed.kind, rustc_span::ExpnKind::Macro(rustc_span::MacroKind::Derive, n)
+                            if n.as_str() == "Serialize" || n.as_str() == "Deserialize")
+                    })
+                {
+                    continue;
+                }
                 let j = dump_fn(tcx, ldid, kind, &self.hir_filter);
                 j.write(&mut buf);
                 buf.push('\n');
@@ -293,6 +303,15 @@ fn dump_fn<'tcx>(tcx: TyCtxt<'tcx>, ldid: LocalDefId, kind: DefKind, hir_filter:
     let (f, l) = span_loc(tcx, tcx.def_span(did));
     o.set("file", J::s(&f));
     o.set("line", J::Int(l as i128));
+    let dsp = tcx.def_span(did);
+    if dsp.from_expansion() {
+        for ed in dsp.macro_backtrace() {
+            if let rustc_span::ExpnKind::Macro(rustc_span::MacroKind::Derive, n) = ed.kind {
+                o.set("derive", J::s(n.as_str()));
+                break;
+            }
+        }
+    }
 
     let body = tcx.optimized_mir(did);
     let cx = FnCx { tcx, body, def: ldid, env: TypingEnv::post_analysis(tcx, did) };
@@ -349,6 +368,30 @@ fn dump_fn<'tcx>(tcx: TyCtxt<'tcx>, ldid: LocalDefId, kind: DefKind, hir_filter:
         }
     }
     o
+}
+
+/// Stable, module-free key of a function-like item: `Type::name`, `<Type as Trait>::name`,
+/// `Trait::name` (trait default / declaration) or the plain def-path for free functions.
+fn stable_key<'tcx>(tcx: TyCtxt<'tcx>, did: DefId) -> String {
+    let kind = tcx.def_kind(did);
+    let path = tcx.def_path_str(did);
+    if kind != DefKind::AssocFn {
+        return path;
+    }
+    let name = tcx.item_name(did).to_string();
+    if let Some(impl_did) = tcx.impl_of_assoc(did) {
+        let self_ty = tcx.type_of(impl_did).instantiate_identity().skip_norm_wip();
+        let short_self = short_ty(tcx, self_ty);
+        if let Some(tr) = tcx.impl_opt_trait_ref(impl_did) {
+            let tr = tr.instantiate_identity().skip_norm_wip();
+            return format!("<{} as {}>::{}", short_self, tcx.item_name(tr.def_id), name);
+        }
+        return format!("{}::{}", short_self, name);
+    }
+    if let Some(tr) = tcx.trait_of_assoc(did) {
+        return format!("{}::{}", tcx.item_name(tr), name);
+    }
+    path
 }
 
 /// Short, module-free type name used in stable keys (`Memvid`, `EmbeddedWal`, `Vec<T>` → `Vec`).
@@ -486,6 +529,7 @@ impl<'a, 'tcx> FnCx<'a, 'tcx> {
         match *fty.kind() {
             ty::FnDef(did, args) => {
                 t.set("decl", J::s(&self.tcx.def_path_str(did)));
+                t.set("decl_key", J::s(&stable_key(self.tcx, did)));
                 t.set("decl_name", J::s(self.tcx.item_name(did).as_str()));
                 if !args.is_empty() {
                     t.set(
@@ -511,6 +555,9 @@ impl<'a, 'tcx> FnCx<'a, 'tcx> {
                     t.set("rk", J::s(kind));
                     if !matches!(inst.def, ty::InstanceKind::Virtual(..)) {
                         t.set("res", J::s(&self.tcx.def_path_str(rdid)));
+                        if matches!(self.tcx.def_kind(rdid), DefKind::Fn | DefKind::AssocFn) {
+                            t.set("res_key", J::s(&stable_key(self.tcx, rdid)));
+                        }
                         t.set("res_local", J::Bool(rdid.is_local()));
                         if !inst.args.is_empty() {
                             t.set(
